@@ -1,12 +1,13 @@
 #!/bin/sh
 # setup: clean full build of the Coq development and the extracted driver (offline).
 set -e
-cd /verif/coq
+HERE=$(cd "$(dirname "$0")" && pwd)
+cd "$HERE/coq"
 rm -f Makefile Makefile.conf .Makefile.d
 find . -name '*.vo' -o -name '*.vok' -o -name '*.vos' -o -name '*.glob' -o -name '.*.aux' | xargs rm -f
 coq_makefile -f _CoqProject -o Makefile
 timeout 3000 make -j16
-cd /verif/ocaml
+cd "$HERE/ocaml"
 rm -f driver *.cm* *.o
 timeout 300 ocamlfind ocamlopt -w -a -package str model.mli model.ml driver.ml -o driver
 echo setup-ok
